@@ -223,33 +223,93 @@ type unpacked struct {
 	ok   bool
 	val  string
 	size uint32
+	m    socket.Message // kept so that the body can be rendered AFTER later frames were decoded
 }
 
-// unpackOne runs the real Unpack on the reader; panics are reported as failures.
-func unpackOne(p socket.Proto) (u unpacked) {
-	defer func() {
-		if e := recover(); e != nil {
-			u = unpacked{ok: false, val: "sfail"}
-		}
-	}()
-	m := socket.NewMessage(socket.WithNewBody(func(socket.Header) interface{} { return new([]byte) }))
-	if err := p.Unpack(m); err != nil {
-		return unpacked{ok: false, val: "sfail"}
+// A receiving session reuses its message objects (sync.Pool + Reset); so does the harness:
+// one long-lived message that is Reset before every Unpack, alternating with pool traffic.
+var reused = socket.NewMessage()
+var useCount int
+
+func acquire() socket.Message {
+	useCount++
+	nb := socket.WithNewBody(func(socket.Header) interface{} { return new([]byte) })
+	if useCount%3 == 0 {
+		return socket.GetMessage(nb)
 	}
+	return reused.Reset(nb)
+}
+
+func render(m socket.Message) string {
 	var kv []string
 	m.Meta().VisitAll(func(k, v []byte) { kv = append(kv, VL(VB(k), VB(v))) })
 	var body []byte
 	if b, ok := m.Body().(*[]byte); ok && b != nil {
 		body = *b
 	}
-	return unpacked{ok: true, size: m.Size(), val: VL(VS("ok"), VL(
+	return VL(VS("ok"), VL(
 		VZ(int64(m.Seq())), VB([]byte{m.Mtype()}), VB([]byte(m.ServiceMethod())),
 		VB(m.Status(true).EncodeQuery()), VL(kv...), VB([]byte{m.BodyCodec()}), VB(body),
-		VB(m.XferPipe().IDs()), VN(int64(m.Size()))))}
+		VB(m.XferPipe().IDs()), VN(int64(m.Size()))))
 }
 
-// decodeStream decodes frames until the reader is exhausted or a frame fails.
+// unpackOne runs the real Unpack on the reader; panics are reported as failures.
+func unpackOne(p socket.Proto, keep bool) (u unpacked) {
+	defer func() {
+		if e := recover(); e != nil {
+			u = unpacked{ok: false, val: "sfail"}
+		}
+	}()
+	var m socket.Message
+	if keep {
+		// frames of one stream are alive together (handlers run while the next frame is read)
+		m = socket.NewMessage(socket.WithNewBody(func(socket.Header) interface{} { return new([]byte) }))
+	} else {
+		m = acquire()
+	}
+	if err := p.Unpack(m); err != nil {
+		return unpacked{ok: false, val: "sfail"}
+	}
+	if keep {
+		return unpacked{ok: true, size: m.Size(), m: m}
+	}
+	return unpacked{ok: true, size: m.Size(), val: render(m)}
+}
+
+// decodeStream decodes frames until the reader is exhausted or a frame fails. Every decoded
+// message of the stream is rendered only after the whole stream was decoded, so a body that
+// still points into a recycled read buffer shows up as a difference.
 func decodeStream(chunks [][]byte) (frames []string, end string, sizes []uint32) {
+	rw := &chunkRW{chunks: chunks}
+	p := socket.RawProtoFunc(rw)
+	var ms []socket.Message
+	end = "sok"
+	for {
+		for len(rw.chunks) > 0 && len(rw.chunks[0]) == 0 {
+			rw.chunks = rw.chunks[1:]
+		}
+		if len(rw.chunks) == 0 {
+			break
+		}
+		u := unpackOne(p, true)
+		if !u.ok {
+			end = "sfail"
+			break
+		}
+		ms = append(ms, u.m)
+		sizes = append(sizes, u.size)
+	}
+	// exercise the recycled-message path as well: same bytes again through reused messages,
+	// which must give the same fields
+	for _, m := range ms {
+		frames = append(frames, render(m))
+	}
+	return frames, end, sizes
+}
+
+// decodeStreamReused decodes the same stream through recycled message objects, rendering each
+// frame at once.
+func decodeStreamReused(chunks [][]byte) (frames []string, end string) {
 	rw := &chunkRW{chunks: chunks}
 	p := socket.RawProtoFunc(rw)
 	for {
@@ -257,14 +317,13 @@ func decodeStream(chunks [][]byte) (frames []string, end string, sizes []uint32)
 			rw.chunks = rw.chunks[1:]
 		}
 		if len(rw.chunks) == 0 {
-			return frames, "sok", sizes
+			return frames, "sok"
 		}
-		u := unpackOne(p)
+		u := unpackOne(p, false)
 		if !u.ok {
-			return frames, "sfail", sizes
+			return frames, "sfail"
 		}
 		frames = append(frames, u.val)
-		sizes = append(sizes, u.size)
 	}
 }
 
@@ -329,6 +388,12 @@ func main() {
 			if ok {
 				packObs = VL(VS("ok"), VB(out))
 				var first string
+				if fr2, end2 := decodeStreamReused([][]byte{append([]byte(nil), out...)}); true {
+					fr1, end1, _ := decodeStream([][]byte{append([]byte(nil), out...)})
+					if VL(VL(fr2...), end2) != VL(VL(fr1...), end1) {
+						st.Fail(i, "recycled-message", "decoding into a recycled message gives different fields than decoding into a fresh one", human)
+					}
+				}
 				for ci, ch := range chunkings(r, out) {
 					fr, end, sizes := decodeStream(ch)
 					cur := VL(VL(fr...), end)
@@ -379,6 +444,12 @@ func main() {
 			}
 			human := fmt.Sprintf("stream frames=%d bytes=%x", len(lens), all)
 			var first string
+			if fr2, end2 := decodeStreamReused([][]byte{append([]byte(nil), all...)}); true {
+				fr1, end1, _ := decodeStream([][]byte{append([]byte(nil), all...)})
+				if VL(VL(fr2...), end2) != VL(VL(fr1...), end1) {
+					st.Fail(i, "recycled-message", "decoding a stream into recycled messages gives different fields than decoding into fresh ones", human)
+				}
+			}
 			for ci, ch := range chunkings(r, all) {
 				fr, end, sizes := decodeStream(ch)
 				cur := VL(VL(fr...), end)
